@@ -105,12 +105,13 @@ def cases(tier):
     cs.append(Case("fp-fixed:unary_sample:eps=sym", constrain.h_kernel_fp,
                    dict(skel="unary_sample", which=["fixed", "max"], eps_value=None,
                         qtimeout_ms=120000), weight=50))
-    for sk in (["cat3", "internal_sample"] if tier == "quick"
-               else ["cat3", "internal_sample", "historical_leaf", "two_parents"]):
-        for ev in ((1e-8,) if tier == "quick" else (1e-8, 1.0)):
-            cs.append(Case(f"fp-fixed:{sk}:eps={ev}", constrain.h_kernel_fp,
-                           dict(skel=sk, which=["fixed", "max"], eps_value=ev, qtimeout_ms=120000,
-                                case_timeout_s=900 if tier == "thorough" else 420), weight=50))
+    fp = [("cat3", 1e-8), ("internal_sample", 1e-8)]
+    if tier == "thorough":      # sized by a full thorough run of C01 (same kernel)
+        fp += [("cat3", 1e-6), ("internal_sample", 1e-6), ("historical_leaf", 1e-8)]
+    for sk, ev in fp:
+        cs.append(Case(f"fp-fixed:{sk}:eps={ev}", constrain.h_kernel_fp,
+                       dict(skel=sk, which=["fixed", "max"], eps_value=ev, qtimeout_ms=120000,
+                            case_timeout_s=2400 if tier == "thorough" else 420), weight=50))
     return cs
 
 
